@@ -49,6 +49,11 @@ theorem table_rows_wellformed :
 theorem table_sound_complete : rows.all (fun r => r.canNorm == r.parsesAfter) = true := by
   decide
 
+/-- Where the emptying is allowed, doing it for real (delete and cut) leaves a statement whose live class is the class
+CPython gives the resulting source (a `TryStar` that loses all its `except*` handlers and keeps a `finally` becomes a `Try`). -/
+theorem table_class_after : rows.all (fun r => r.clsOk) = true := by
+  decide
+
 example : canDelAll true ⟨.tryS, true, true, true⟩ .handlers = false ∧ validAfter ⟨.tryS, true, true, true⟩ .handlers = false ∧
     canDelAll true ⟨.tryS, true, false, true⟩ .handlers = true := by decide
 
